@@ -1,6 +1,7 @@
 import Driver.Proto
 import Driver.Ops.C06
 import Driver.Ops.C03
+import Driver.Ops.C02
 
 /-! pqdriver: one request per line on stdin, one answer per line on stdout.
     Each property registers its ops in `Driver/Ops/<id>.lean` as
@@ -18,11 +19,23 @@ def dispatch (toks : List String) : String :=
   | ["ping"] => "ok pong"
   | _ => (handlers.findSome? (· toks)).getD "bad-op"
 
+/-- ops that need the file system (`file.check`) -/
+def ioHandlers : List (List String → IO (Option String)) := [
+  Ops.C02.handleIO
+]
+
+def dispatchIO (toks : List String) : IO String := do
+  for h in ioHandlers do
+    match ← h toks with
+    | some r => return r
+    | none => pure ()
+  return dispatch toks
+
 partial def loop (hin hout : IO.FS.Stream) : IO Unit := do
   let line ← hin.getLine
   if line.isEmpty then return ()
   let toks := (line.trimAscii.toString.splitOn " ").filter (· ≠ "")
-  hout.putStrLn (dispatch toks)
+  hout.putStrLn (← dispatchIO toks)
   hout.flush
   loop hin hout
 
